@@ -317,7 +317,7 @@ def check(ctx):
     else:
         o.witness('merge')
         # the emptying happens after the loop, on every path
-        if g.exit in g.reach([g.entry], avoid={empt[0].id}, follow=lambda l: l != 'exc'):
+        if g.exit in g.reach([loops[0][0].id], avoid={empt[0].id}, follow=lambda l: l != 'exc'):
             o.fail(P, 'ReservedResources.merge', empt[0].ast, 'the merged reservation is not emptied on every path (its amounts would be released twice)', node=empt[0])
     rp = P.lookup_prop(RR, 'reserved_resources', 'get')
     o.count()
@@ -365,6 +365,7 @@ def check(ctx):
             o.fail(P, s.ctx, s.node, 'a reservation object is created outside reserve_resources (it would hold amounts that were never taken)', file=s.mod.path, line=s.line)
         else:
             o.witness('ctor')
+    obs.append(merge_partners(ctx, RR))
     obs.append(dv.falsy_default_obligation(ctx, 'C09.9', ['ResourceManager', 'ReservedResources'], 'amounts are the numbers given (0 is a legal amount)'))
     return obs
 
@@ -1015,3 +1016,80 @@ CLAIM = {
                   'reservation test is all-or-nothing on every path; the usage = sum-of-holdings identity over histories is not decided.',
     'level_note': 'Amounts are real numbers; reservation internals are not mutated by callers.',
 }
+
+
+def merge_partners(ctx, RR):
+    """C09.10: merge moves holdings only between two different reservations of one manager"""
+    P = ctx.P
+    o = Ob('C09.10', 'K2', 'merge moves holdings only after it has established that the other reservation is a different object (merged into itself a reservation would '
+                           'be emptied while the pool still counts its amounts) and belongs to the same manager (amounts of another manager would later be released into this one: '
+                           'usage below zero); both tests come before the first change')
+    fn = P.method(RR, 'merge')[1]
+    other = fn.args.args[1].arg
+    g = ctx.graph(RR, 'merge')
+
+    def sides(test, frame):
+        # `==` between two reservations is the identity test only while the class does not define its own equality
+        ops = (ast.Is, ast.IsNot) if '__eq__' in RR.methods else (ast.Is, ast.IsNot, ast.Eq, ast.NotEq)
+        if isinstance(test, ast.Compare) and len(test.ops) == 1 and isinstance(test.ops[0], ops):
+            a = ast.unparse(subst(test.left, FrameEnv(frame)))
+            b = ast.unparse(subst(test.comparators[0], FrameEnv(frame)))
+            return {a, b}, isinstance(test.ops[0], (ast.Is, ast.Eq))
+        return None, None
+
+    def refine(an, test, truth, st, frame):
+        sd, same = sides(test, frame)
+        if sd == {other, 'self'}:
+            ghost = '#same-object'
+        elif sd == {f'{other}._resource_manager', 'self._resource_manager'}:
+            ghost = '#same-manager'
+        else:
+            return NotImplemented
+        want = 'T' if (truth == same) else 'F'
+        cur = st.fields.get(ghost, TOP)
+        if cur in ('T', 'F') and cur != want:
+            return None
+        return st.with_field(ghost, want) if cur != want else st
+
+    def is_change(n):
+        if n.kind == 'for' and ast.unparse(subst(n.ast.iter, FrameEnv(n.frame))).startswith((f'{other}._reserved_resources', 'self._reserved_resources')):
+            return True
+        if n.kind == 'stmt' and isinstance(n.ast, (ast.Assign, ast.AugAssign, ast.Delete)):
+            tg = n.ast.targets if not isinstance(n.ast, ast.AugAssign) else [n.ast.target]
+            return any('_reserved_resources' in ast.unparse(subst(t, FrameEnv(n.frame))) for t in tg)
+        return any(call_attr(c) in ('update', 'pop', 'clear', 'setdefault', 'popitem') and '_reserved_resources' in ast.unparse(subst(c.func.value, FrameEnv(n.frame)))
+                   for c in calls_at(g, n) if isinstance(c.func, ast.Attribute))
+
+    def hook(an, n, before, after):
+        if is_change(n) and not any(f.startswith('change@') for f in before.flags):
+            return after.with_flag(f"change@{n.id}:{before.fields.get('#same-object', TOP)}:{before.fields.get('#same-manager', TOP)}")
+        return after
+
+    an = Analysis(P, g, ['#same-object', '#same-manager'])
+    an.refine_hooks.insert(0, refine)
+    an.node_hooks.append(hook)
+    s0 = State({'#same-object': TOP, '#same-manager': TOP})
+    s0.locals[(g.top.id, other)] = 'S'
+    res = ctx.explore(an, [s0])
+    seen = set()
+    n_changes = 0
+    for st in [v[0] for d in res.seen.values() for v in d.values()]:
+        for f in st.flags:
+            if not f.startswith('change@') or f in seen:
+                continue
+            seen.add(f)
+            n_changes += 1
+            o.count()
+            nid, so, sm = f[len('change@'):].split(':')
+            node = g.nodes[int(nid)] if nid.isdigit() and int(nid) in g.nodes else None
+            if so != 'F':
+                o.fail(P, 'ReservedResources.merge', node.ast if node is not None else 'merge', 'holdings are changed without a preceding test that the other reservation is not this '
+                       'one: `r.merge(r)` leaves r empty while the pool still counts what it held (usage != sum of holdings)', node=node, file=RR.mod.path, line=fn.lineno)
+            elif sm != 'T':
+                o.fail(P, 'ReservedResources.merge', node.ast if node is not None else 'merge', 'holdings are changed without a preceding test that both reservations belong to the same '
+                       'manager: amounts reserved with another manager end up being released into this one (usage below zero) and stay counted in the other',
+                       node=node, file=RR.mod.path, line=fn.lineno)
+            else:
+                o.witness(('guarded', nid))
+    o.require(n_changes >= 1, 'merge never changes the holdings in the abstract exploration')
+    return o
